@@ -62,7 +62,6 @@ Variables A B : csr E.
 Hypothesis HA : @Inv E A.
 Hypothesis HB : @Inv E B.
 Hypothesis Hd : ccol A = crow B.
-Hypothesis Hg : ccol B <= ccol A.
 Hypothesis Hsz : crow A * ccol B < 2 ^ 31.
 Notation items := (items Ops A B).
 Notation items_at := (items_at Ops A B).
@@ -87,6 +86,7 @@ Lemma wfA : @wf E A. Proof. apply HA. Qed.
 Lemma wfB : @wf E B. Proof. apply HB. Qed.
 Lemma colA_small : ccol A < 2 ^ 31. Proof. destruct HA as (_ & _ & (_ & H & _)). exact H. Qed.
 Lemma rowA_small : crow A < 2 ^ 31. Proof. destruct HA as (_ & _ & (H & _)). exact H. Qed.
+Lemma colB_small : ccol B < 2 ^ 31. Proof. destruct HB as (_ & _ & (_ & H & _)). exact H. Qed.
 
 (* facts about the positions visited *)
 Lemma posA i jj : i < crow A -> pN A i <= jj -> jj < pN A (i + 1) ->
@@ -111,13 +111,13 @@ Proof. intros. apply (pN_mono B wfB); lia. Qed.
 (* ---------- the loops of one row ---------- *)
 Definition Q1 (i : N) (mask0 : list N) (L : list (N * E)) (st : list N * N) : Prop :=
   let '(mask, rn) := st in
-  lenN mask = ccol A /\
-  (forall k, k < ccol A -> nthN mask k 0 = if memN k (map fst L) then i else nthN mask0 k 0) /\
+  lenN mask = ccol B /\
+  (forall k, k < ccol B -> nthN mask k 0 = if memN k (map fst L) then i else nthN mask0 k 0) /\
   rn = lenN (disc (map fst L)) /\
   (forall k, In k (map fst L) -> k < ccol B).
 
 Lemma p1_inner i mask0 jj L st :
-  (forall k, k < ccol A -> nthN mask0 k 0 <> i) ->
+  (forall k, k < ccol B -> nthN mask0 k 0 <> i) ->
   nthN (cj A) jj 0 < crow B ->
   Q1 i mask0 L st ->
   exists st',
@@ -160,12 +160,12 @@ Proof.
       rewrite memN_single. destruct (N.eqb_spec c k) as [->|]; [rewrite orb_true_r; reflexivity|].
       rewrite orb_false_r. apply Q1b; assumption.
     + rewrite map_app. cbn [map fst]. rewrite Hlen. apply uadd_small.
-      pose proof colA_small. lia.
+      pose proof colB_small. lia.
 Qed.
 
 Lemma p1_row i mask0 st :
   i < crow A ->
-  (forall k, k < ccol A -> nthN mask0 k 0 <> i) ->
+  (forall k, k < ccol B -> nthN mask0 k 0 <> i) ->
   Q1 i mask0 [] st ->
   exists st',
     for_range (pN A i) (pN A (i + 1)) (fun jj st =>
@@ -197,8 +197,8 @@ Qed.
 (* ---------- the whole pass ---------- *)
 Definition R1 (i : N) (st : list N * list N * N) : Prop :=
   let '(p, mask, nnz) := st in
-  lenN p = crow A + 1 /\ lenN mask = ccol A /\
-  (forall k, k < ccol A -> nthN mask k 0 = MASK_INIT \/ nthN mask k 0 < i) /\
+  lenN p = crow A + 1 /\ lenN mask = ccol B /\
+  (forall k, k < ccol B -> nthN mask k 0 = MASK_INIT \/ nthN mask k 0 < i) /\
   nnz = psum i /\
   (forall r, r <= i -> nthN p r 0 = psum r).
 
@@ -220,7 +220,7 @@ Proof.
     rewrite (getN_p A i wfA) by lia. cbn [bind].
     rewrite uadd_small by lia.
     rewrite (getN_p A (i + 1) wfA) by lia. cbn [bind].
-    assert (Hpre : forall k, k < ccol A -> nthN mask k 0 <> i).
+    assert (Hpre : forall k, k < ccol B -> nthN mask k 0 <> i).
     { intros k Hk. destruct (R1c k Hk) as [->|]; [unfold MASK_INIT|]; lia. }
     destruct (p1_row i mask (mask, 0) Hi Hpre) as ([mask' rn] & Hrow' & (Qa & Qb & Qc & Qd)).
     { unfold Q1. cbn [map]. split; [assumption|]. split; [|split; [reflexivity|intros ? []]].
